@@ -216,12 +216,14 @@ func (d *dhcpRun) history() {
 	}
 	bc := netip.MustParseAddr("255.255.255.255")
 	rx := newRx()
+	restarted := false
 	for step, o := range d.ops {
 		cl := cls[o.C%len(cls)]
 		// "the client's capture state at that moment" is what the session reports: the flag lives in the MAC entry and is
 		// dropped with it when the MAC's last host is re-bound or purged (DESIGN Corrections)
 		cl.captured = s.IsCaptured(net.HardwareAddr(cl.mac[:]))
 		var frameB []byte
+		mustAck, ackedNow := "", false
 		var req *refdec.DHCPMsg
 		var srcIP netip.Addr = ip4zero
 		newMsg := func(typ byte) *refdec.DHCPMsg {
@@ -328,6 +330,22 @@ func (d *dhcpRun) history() {
 					panic("HARNESS BUG: " + err.Error())
 				}
 			}
+			if o.P >= 2 {
+				// ... and comes back with another DNS server in its configuration
+				d.dns = []netip.Addr{netip.MustParseAddr("9.9.9.9"), netip.MustParseAddr("8.8.4.4"), {}}[(o.P+step)%3]
+				dns = d.dns
+				if !dns.IsValid() {
+					dns = nic.RouterIP
+				}
+				if dns != m.Cfg.DNS {
+					m.Forget() // a changed subnet configuration resets the lease table by design
+					for _, x := range cls {
+						x.offered, x.acked = netip.Addr{}, netip.Addr{}
+					}
+				}
+				m.Cfg.DNS = dns
+				c.Obs("restarts_with_new_dns", 1)
+			}
 			if h, err = (dhcp4_spoofer.Config{Mode: d.mode, NetfilterIP: d.net.netfilter, DNSServer: d.dns, LeaseFilename: file}).New(s); err != nil {
 				c.ViolP("C18", "lease:restart:construct-error", err.Error(), cs(step))
 				d.viol = true
@@ -337,6 +355,7 @@ func (d *dhcpRun) history() {
 			synctest.Wait()
 			rec.Take()
 			c.Obs("midhistory_restarts", 1)
+			restarted = true
 		case "foreign":
 			// another server's OFFER to the client, seen on port 68
 			q := refdec.DHCPMsg{Op: 2, HType: 1, HLen: 6, XID: cl.xid, YI: d.pickAddr(1, cl, cls, false)}
@@ -353,6 +372,15 @@ func (d *dhcpRun) history() {
 				dst = nic.HostIP
 			}
 			frameB = dhcpFrame(cl.mac, srcIP, dst, *req, 68, 67, bcastMAC)
+			if restarted && (o.K == "renew" || o.K == "reboot") {
+				a := req.CI
+				if o.K == "reboot" {
+					a, _ = req.OptIP4(50)
+				}
+				if holder, capt, ok := m.HeldInfo(a); ok && holder == req.ClientID() && capt == cl.captured {
+					mustAck = fmt.Sprintf("%v by client %x", a, holder)
+				}
+			}
 			m.Request(*req, srcIP, cl.captured)
 		}
 		if c.Only >= 0 {
@@ -418,6 +446,7 @@ func (d *dhcpRun) history() {
 				cl.offered = rep.YI
 			case refdec.DHCPAck:
 				cl.acked = rep.YI
+				ackedNow = true
 				d.sawAck = true
 				if d.afterAck != nil {
 					d.afterAck(step, file, m)
@@ -428,6 +457,12 @@ func (d *dhcpRun) history() {
 		}
 		if req != nil && replies == 0 {
 			m.SilentStep()
+		}
+		// C18: a server that came back from its lease file keeps acknowledging the renewals of bindings that are in force
+		// (same client, same address, client still in the capture state it was acknowledged under)
+		if mustAck != "" && !ackedNow {
+			c.ViolP("C18", "lease:restart:renewal-refused", fmt.Sprintf("after a restart the %s of %s, acknowledged and in force, was answered with %d replies and no ACK", o.K, mustAck, replies), cs(step))
+			d.viol = true
 		}
 		if req != nil && replies > 1 {
 			c.ViolP("C12", "dhcp:multiple-replies", fmt.Sprintf("%d replies to one request", replies), cs(step))
@@ -463,7 +498,7 @@ func randDop(r *rand.Rand) dop {
 	c := r.Intn(3)
 	switch k := r.Intn(26); {
 	case k >= 24:
-		return dop{K: "restart", P: r.Intn(2)}
+		return dop{K: "restart", P: r.Intn(4)}
 	case k < 5:
 		return dop{K: "disc", C: c, P: []int{0, 0, 1, 2, 2, 3, 3, 4, 5, 6, 7, 8, 9}[r.Intn(13)]}
 	case k < 6:
@@ -569,7 +604,28 @@ func runDHCP(c *wk.Ctx) {
 		}
 		r := c.Rand("dhcp", i)
 		ops := make([]dop, 30)
+		var prefix []dop
+		if r.Intn(4) == 0 {
+			// a scripted beginning that brings the server into a state random walks rarely reach, then a random continuation
+			cl := r.Intn(3)
+			ack := []dop{{K: "disc", C: cl}, {K: "sel", C: cl}}
+			age := dop{K: "adv", D: 2*time.Hour + time.Minute}
+			switch r.Intn(4) {
+			case 0: // lease renewed late in its life, server restarted, clock moved beyond the original expiry
+				prefix = append(ack, age, dop{K: "renew", C: cl}, dop{K: "restart", P: r.Intn(4)}, age)
+			case 1: // two clients with acknowledged leases
+				prefix = append(ack, dop{K: "disc", C: (cl + 1) % 3}, dop{K: "sel", C: (cl + 1) % 3})
+			case 2: // lease, then the client is captured (its subnet changes under it)
+				prefix = append(ack, dop{K: "cap", C: cl}, dop{K: "renew", C: cl})
+			default: // lease, long silence (the session forgets the host), renewed, restart
+				prefix = append(ack, age, dop{K: "reboot", C: cl}, age, dop{K: "restart", P: 1})
+			}
+		}
 		for k := range ops {
+			if k < len(prefix) {
+				ops[k] = prefix[k]
+				continue
+			}
 			ops[k] = randDop(r)
 			// keep transactions going: a DISCOVER is usually followed by the matching selecting REQUEST, an ACK by a renewal
 			if k > 0 && r.Intn(10) < 6 {
